@@ -57,6 +57,13 @@ type source struct {
 }
 
 func (s *source) Open(name string) (hackpadfs.File, error) {
+	s.mu.Lock()
+	down := s.sticky && s.fired && s.failRead > 0
+	s.mu.Unlock()
+	if down {
+		// the source that broke is still down: it does not even open files
+		return nil, &hackpadfs.PathError{Op: "open", Path: name, Err: errSource}
+	}
 	f, err := s.inner.Open(name)
 	if err != nil {
 		return nil, err
@@ -135,6 +142,8 @@ type Case struct {
 	// Sticky: whatever breaks stays broken until it is repaired before the re-opens (every later call of the source handle
 	// incl. its Close, or every later store call), instead of one call failing once
 	Sticky bool `json:"sticky,omitempty"`
+	// BrokenReopens: with Sticky, how many further opens are attempted while everything is still broken, before the repair
+	BrokenReopens int `json:"broken_reopens,omitempty"`
 }
 
 type env struct {
@@ -239,6 +248,18 @@ func checkFaults(c Case) (string, string, outcome) {
 		}
 		if oerr == nil && st.kind == "store-call" && (e.hooks.Fired == "File.Write" || e.hooks.Fired == "File.Close(w)" || e.hooks.Fired == "OpenFile" || e.hooks.Fired == "Mkdir") {
 			return base + ":fill-failure-not-reported:" + siteClass(st.kind, e.hooks.Fired), fmt.Sprintf("%s failed while filling the cache but Open reported success", what), out
+		}
+		// with a sticky fault: opens attempted while it is still broken (they fail, or serve the complete bytes)
+		for r := 0; c.Sticky && r < c.BrokenReopens; r++ {
+			var d2 []byte
+			var e2 error
+			pan, hung := vf.Guard(func() { d2, e2 = e.openAndRead(c.Name) })
+			if pan != "" || hung {
+				return base + ":reopen-crash", fmt.Sprintf("open %d while still broken after %s: %s hung=%v", r, what, pan, hung), out
+			}
+			if e2 == nil && !bytes.Equal(d2, e.want) {
+				return base + ":partial-served-while-broken:" + siteClass(st.kind, e.hooks.Fired), fmt.Sprintf("%s failed and stays broken; open %d served %d of %d bytes without an error", what, r, len(d2), len(e.want)), out
+			}
 		}
 		// later, fault-free opens
 		e.src.failRead, e.hooks.FailAt = 0, 0
@@ -346,12 +367,13 @@ var sizes = []int{0, 1, 511, 512, 513, 1024, 1600, 5000}
 func TestFaults(t *testing.T) {
 	vf.Check(t, "faults", func(rt *rapid.T, rec *vf.Rec) {
 		c := Case{
-			Size:    rapid.SampledFrom(sizes).Draw(rt, "size"),
-			Name:    rapid.SampledFrom([]string{"f", "d/e/f"}).Draw(rt, "name"),
-			Store:   rapid.SampledFrom([]string{"min", "rw"}).Draw(rt, "store"),
-			NoSeek:  rapid.Bool().Draw(rt, "noseek"),
-			Reopens: rapid.IntRange(1, 3).Draw(rt, "reopens"),
-			Sticky:  rapid.IntRange(0, 2).Draw(rt, "sticky") == 0,
+			Size:          rapid.SampledFrom(sizes).Draw(rt, "size"),
+			Name:          rapid.SampledFrom([]string{"f", "d/e/f"}).Draw(rt, "name"),
+			Store:         rapid.SampledFrom([]string{"min", "rw"}).Draw(rt, "store"),
+			NoSeek:        rapid.Bool().Draw(rt, "noseek"),
+			Reopens:       rapid.IntRange(1, 3).Draw(rt, "reopens"),
+			Sticky:        rapid.IntRange(0, 2).Draw(rt, "sticky") == 0,
+			BrokenReopens: rapid.IntRange(0, 2).Draw(rt, "brokenreopens"),
 		}
 		rec.Step(c)
 		sig, msg, out := checkFaults(c)
